@@ -1,1 +1,478 @@
-From Coq Require Import ZArith List.
+(* C16: the cursor invariant and the scanners (skipSpace with the comment scanner, readToken,
+   parseText).  For a cursor that satisfies [Inv text] (it is a suffix of the text, a NUL lies at or
+   behind it, and its line / line start are the line and column of its offset), every scanner
+   - never reads from the empty list (no [Oob]: nothing beyond the terminator is read),
+   - returns a cursor that satisfies [Inv] again and is a suffix of the one it started from,
+   - reports errors at a cursor that satisfies [Inv]. *)
+From Coq Require Import ZArith List Bool Lia.
+From Xml Require Import Gen_Xml XmlSpec XmlModel.
+Import ListNotations.
+Local Open Scope Z_scope.
+Local Open Scope bool_scope.
+
+(* ---- suffixes ----------------------------------------------------------------------------- *)
+
+Definition suffix (a b : list Z) : Prop := exists mid, b = mid ++ a.
+
+Lemma suffix_refl : forall a, suffix a a.
+Proof. intros a. exists []. reflexivity. Qed.
+
+Lemma suffix_trans : forall a b c, suffix a b -> suffix b c -> suffix a c.
+Proof. intros a b c [m1 H1] [m2 H2]. exists (m2 ++ m1). subst. rewrite app_assoc. reflexivity. Qed.
+
+Lemma suffix_cons : forall a x b, suffix a b -> suffix a (x :: b).
+Proof. intros a x b [m H]. exists (x :: m). subst. reflexivity. Qed.
+
+Lemma suffix_app : forall a m, suffix a (m ++ a).
+Proof. intros a m. exists m. reflexivity. Qed.
+
+Lemma suffix_len : forall a b, suffix a b -> (length a <= length b)%nat.
+Proof. intros a b [m H]. subst. rewrite app_length. lia. Qed.
+
+Lemma suffix_len_eq : forall a b, suffix a b -> length a = length b -> a = b.
+Proof.
+  intros a b [m H] L. subst. rewrite app_length in L. destruct m; [reflexivity|cbn [length] in L; lia].
+Qed.
+
+Lemma suffix_tail_lt : forall a x b, suffix a b -> (length a < length (x :: b))%nat.
+Proof. intros a x b H. apply suffix_len in H. cbn [length]. lia. Qed.
+
+(* ---- the invariant ------------------------------------------------------------------------ *)
+
+Definition InvR (text r : list Z) (o l s : Z) : Prop :=
+  exists pre cr, text = pre ++ r /\ o = zlen pre /\ lc_of pre = (l, o - s + 1, cr) /\
+                 (cr = true -> hd 0 r <> 10) /\ In 0 r.
+
+Definition Inv (text : list Z) (p : pos) : Prop := InvR text (rest p) (off p) (line p) (ls p).
+
+Definition col (p : pos) : Z := off p - ls p + 1.
+
+(* an error reported at a cursor that satisfies the invariant *)
+Definition ErrAt (text : list Z) (l c : Z) : Prop := exists p, Inv text p /\ l = line p /\ c = col p.
+
+Lemma lc_of_snoc : forall pre c, lc_of (pre ++ [c]) = lc_step (lc_of pre) c.
+Proof. intros pre c. unfold lc_of. rewrite fold_left_app. reflexivity. Qed.
+
+Lemma zlen_snoc : forall pre (c : Z), zlen (pre ++ [c]) = zlen pre + 1.
+Proof. intros pre c. unfold zlen. rewrite app_length. cbn [length]. lia. Qed.
+
+Lemma zlen_app : forall (a b : list Z), zlen (a ++ b) = zlen a + zlen b.
+Proof. intros a b. unfold zlen. rewrite app_length. lia. Qed.
+
+Lemma in0_tail : forall c r, In 0 (c :: r) -> c <> 0 -> In 0 r.
+Proof. intros c r [H|H] Hc; [congruence|exact H]. Qed.
+
+Lemma in0_nonnil : forall r, In 0 r -> r <> [].
+Proof. intros r H E. subst. exact H. Qed.
+
+Lemma inv_adv_plain : forall text c r1 o l s,
+  InvR text (c :: r1) o l s -> c <> 13 -> c <> 10 -> c <> 0 -> InvR text r1 (o + 1) l s.
+Proof.
+  intros text c r1 o l s (pre & cr & Ht & Ho & Hlc & Hcr & H0) H13 H10 Hc0.
+  exists (pre ++ [c]), false. repeat split.
+  - rewrite <- app_assoc. exact Ht.
+  - rewrite zlen_snoc. lia.
+  - rewrite lc_of_snoc, Hlc. unfold lc_step.
+    destruct (c =? 13) eqn:E1; [apply Z.eqb_eq in E1; contradiction|].
+    destruct (c =? 10) eqn:E2; [apply Z.eqb_eq in E2; contradiction|].
+    f_equal. f_equal. lia.
+  - discriminate.
+  - exact (in0_tail _ _ H0 Hc0).
+Qed.
+
+Lemma inv_adv_lf : forall text r1 o l s,
+  InvR text (10 :: r1) o l s -> InvR text r1 (o + 1) (l + 1) (o + 1).
+Proof.
+  intros text r1 o l s (pre & cr & Ht & Ho & Hlc & Hcr & H0).
+  exists (pre ++ [10]), false. repeat split.
+  - rewrite <- app_assoc. exact Ht.
+  - rewrite zlen_snoc. lia.
+  - rewrite lc_of_snoc, Hlc. unfold lc_step. cbn [Z.eqb Pos.eqb].
+    destruct cr; [exfalso; apply (Hcr eq_refl); reflexivity|].
+    f_equal. f_equal. lia.
+  - discriminate.
+  - apply (in0_tail _ _ H0). discriminate.
+Qed.
+
+Lemma inv_adv_cr : forall text c1 r2 o l s,
+  InvR text (13 :: c1 :: r2) o l s -> c1 <> 10 -> InvR text (c1 :: r2) (o + 1) (l + 1) (o + 1).
+Proof.
+  intros text c1 r2 o l s (pre & cr & Ht & Ho & Hlc & Hcr & H0) Hc1.
+  exists (pre ++ [13]), true. repeat split.
+  - rewrite <- app_assoc. exact Ht.
+  - rewrite zlen_snoc. lia.
+  - rewrite lc_of_snoc, Hlc. unfold lc_step. cbn [Z.eqb Pos.eqb].
+    f_equal. f_equal. lia.
+  - intros _. exact Hc1.
+  - apply (in0_tail _ _ H0). discriminate.
+Qed.
+
+Lemma inv_adv_crlf : forall text r2 o l s,
+  InvR text (13 :: 10 :: r2) o l s -> InvR text r2 (o + 2) (l + 1) (o + 2).
+Proof.
+  intros text r2 o l s (pre & cr & Ht & Ho & Hlc & Hcr & H0).
+  exists ((pre ++ [13]) ++ [10]), false. repeat split.
+  - rewrite <- !app_assoc. exact Ht.
+  - rewrite !zlen_snoc. lia.
+  - rewrite !lc_of_snoc, Hlc. unfold lc_step. cbn [Z.eqb Pos.eqb].
+    f_equal. f_equal. lia.
+  - discriminate.
+  - apply (in0_tail 10); [|discriminate]. apply (in0_tail _ _ H0). discriminate.
+Qed.
+
+Definition plain (x : Z) : Prop := x <> 0 /\ x <> 10 /\ x <> 13.
+
+Lemma inv_adv_many : forall a text b o l s,
+  InvR text (a ++ b) o l s -> Forall plain a -> InvR text b (o + zlen a) l s.
+Proof.
+  induction a as [|x a IH]; intros text b o l s H F.
+  - cbn [app] in H. replace (o + zlen []) with o by (unfold zlen; cbn [length]; lia). exact H.
+  - inversion F as [|? ? [P0 [P10 P13]] F']; subst.
+    cbn [app] in H. apply inv_adv_plain in H; try assumption.
+    apply IH in H; [|exact F'].
+    replace (o + zlen (x :: a)) with (o + 1 + zlen a) by (unfold zlen; cbn [length]; lia). exact H.
+Qed.
+
+(* the invariant does not look at what was consumed: same cursor, seen as a [pos] *)
+Lemma inv_mk : forall text r o l s, InvR text r o l s -> Inv text (mkPos r o l s).
+Proof. intros. exact H. Qed.
+
+Lemma inv_in0 : forall text p, Inv text p -> In 0 (rest p).
+Proof. intros text p (pre & cr & _ & _ & _ & _ & H). exact H. Qed.
+
+Lemma invr_in0 : forall text r o l s, InvR text r o l s -> In 0 r.
+Proof. intros text r o l s (pre & cr & _ & _ & _ & _ & H). exact H. Qed.
+
+(* ---- skipSpace ---------------------------------------------------------------------------- *)
+
+Ltac zb :=
+  repeat match goal with
+  | H : (_ =? _) = true |- _ => apply Z.eqb_eq in H
+  | H : (_ =? _) = false |- _ => apply Z.eqb_neq in H
+  end.
+
+Lemma skipSp_ok : forall text n com r o l s,
+  (length r <= n)%nat -> InvR text r o l s ->
+  exists q, skipSp com r o l s = Ok q /\ Inv text q /\ suffix (rest q) r.
+Proof.
+  intros text. induction n as [|n IH]; intros com r o l s Hn HI.
+  { destruct r; [exfalso; exact (invr_in0 _ _ _ _ _ HI)|cbn [length] in Hn; lia]. }
+  pose proof (invr_in0 _ _ _ _ _ HI) as H0.
+  destruct r as [|c r1]; [exfalso; exact H0|].
+  cbn [length] in Hn.
+  assert (Hstay : exists q, Ok (mkPos (c :: r1) o l s) = Ok q /\ Inv text q /\ suffix (rest q) (c :: r1)).
+  { eexists. split; [reflexivity|]. split; [exact HI|apply suffix_refl]. }
+  (* helper: a recursive call on a suffix *)
+  assert (Hrec : forall com' r' o' l' s', (length r' <= n)%nat -> suffix r' (c :: r1) -> InvR text r' o' l' s' ->
+            exists q, skipSp com' r' o' l' s' = Ok q /\ Inv text q /\ suffix (rest q) (c :: r1)).
+  { intros com' r' o' l' s' L S I. destruct (IH com' r' o' l' s' L I) as (q & E & Iq & Sq).
+    exists q. split; [exact E|]. split; [exact Iq|]. exact (suffix_trans _ _ _ Sq S). }
+  cbn [skipSp].
+  destruct (c =? 13) eqn:E13.
+  { zb. subst c. assert (H0' : In 0 r1) by (apply (in0_tail _ _ H0); discriminate).
+    destruct r1 as [|c1 r2]; [exfalso; exact H0'|].
+    destruct (c1 =? 10) eqn:E10; zb.
+    - subst c1. apply Hrec.
+      + cbn [length] in Hn. lia.
+      + exists [13; 10]. reflexivity.
+      + apply (inv_adv_crlf _ _ _ l s). exact HI.
+    - apply Hrec.
+      + lia.
+      + exists [13]. reflexivity.
+      + apply (inv_adv_cr _ _ _ _ l s); assumption. }
+  destruct (c =? 10) eqn:E10.
+  { zb. subst c. apply Hrec; [lia|exists [10]; reflexivity|apply (inv_adv_lf _ _ _ l s); exact HI]. }
+  zb.
+  destruct com.
+  - (* inside a comment *)
+    destruct (c =? 0) eqn:Ec0; [exact Hstay|]. zb.
+    assert (H0' : In 0 r1) by (apply (in0_tail _ _ H0); assumption).
+    assert (Hnext : exists q, skipSp true r1 (o + 1) l s = Ok q /\ Inv text q /\ suffix (rest q) (c :: r1)).
+    { apply Hrec; [lia|exists [c]; reflexivity|apply (inv_adv_plain _ c); assumption]. }
+    destruct (c =? 45) eqn:E45; [|exact Hnext]. zb. subst c.
+    destruct r1 as [|c1 r2]; [exfalso; exact H0'|].
+    destruct (c1 =? 45) eqn:E45'; [|exact Hnext]. zb. subst c1.
+    assert (H0'' : In 0 r2) by (apply (in0_tail _ _ H0'); discriminate).
+    destruct r2 as [|c2 r3]; [exfalso; exact H0''|].
+    destruct (c2 =? 62) eqn:E62; [|exact Hnext]. zb. subst c2.
+    apply Hrec.
+    + cbn [length] in Hn |- *. lia.
+    + exists [45; 45; 62]. reflexivity.
+    + replace (o + 3) with (o + zlen [45; 45; 62]) by reflexivity.
+      apply inv_adv_many; [exact HI|].
+      repeat constructor; discriminate.
+  - (* outside *)
+    destruct (c =? 60) eqn:E60.
+    + zb. subst c. assert (H0' : In 0 r1) by (apply (in0_tail _ _ H0); discriminate).
+      destruct r1 as [|c1 r2]; [exfalso; exact H0'|].
+      destruct (c1 =? 33) eqn:E33; [|exact Hstay]. zb. subst c1.
+      assert (H0'' : In 0 r2) by (apply (in0_tail _ _ H0'); discriminate).
+      destruct r2 as [|c2 r3]; [exfalso; exact H0''|].
+      destruct (c2 =? 45) eqn:E45; [|exact Hstay]. zb. subst c2.
+      assert (H0''' : In 0 r3) by (apply (in0_tail _ _ H0''); discriminate).
+      destruct r3 as [|c3 r4]; [exfalso; exact H0'''|].
+      destruct (c3 =? 45) eqn:E45'; [|exact Hstay]. zb. subst c3.
+      apply Hrec.
+      * cbn [length] in Hn |- *. lia.
+      * exists [60; 33; 45; 45]. reflexivity.
+      * replace (o + 4) with (o + zlen [60; 33; 45; 45]) by reflexivity.
+        apply inv_adv_many; [exact HI|].
+        repeat constructor; discriminate.
+    + destruct (is_space c) eqn:Esp; [|exact Hstay]. zb.
+      assert (c <> 0). { intro; subst c. discriminate. }
+      apply Hrec; [lia|exists [c]; reflexivity|apply (inv_adv_plain _ c); assumption].
+Qed.
+
+Lemma skipSpace_ok : forall text p, Inv text p ->
+  exists q, skipSpace p = Ok q /\ Inv text q /\ suffix (rest q) (rest p).
+Proof. intros text p H. unfold skipSpace. apply (skipSp_ok text (length (rest p))); [lia|exact H]. Qed.
+
+(* where the white-space scanner stops outside a comment: at a byte that is not white space *)
+Lemma skipSp_stop : forall n r o l s q,
+  (length r <= n)%nat -> skipSp false r o l s = Ok q ->
+  match rest q with c :: _ => is_space c = false | [] => True end.
+Proof.
+  assert (G : forall n com r o l s q, (length r <= n)%nat -> skipSp com r o l s = Ok q ->
+              match rest q with c :: _ => is_space c = false | [] => True end).
+  { induction n as [|n IH]; intros com r o l s q Hn E.
+    { destruct r; [discriminate|cbn [length] in Hn; lia]. }
+    destruct r as [|c r1]; [discriminate|]. cbn [length] in Hn. cbn [skipSp] in E.
+    destruct (c =? 13) eqn:E13.
+    { destruct r1 as [|c1 r2]; [discriminate|]. cbn [length] in Hn.
+      destruct (c1 =? 10); eapply IH; try exact E; cbn [length]; lia. }
+    destruct (c =? 10) eqn:E10; [eapply IH; try exact E; lia|].
+    destruct com.
+    - destruct (c =? 0) eqn:E0.
+      { inversion E; subst. cbn [rest]. zb. subst. reflexivity. }
+      destruct (c =? 45).
+      + destruct r1 as [|c1 r2]; [discriminate|]. cbn [length] in Hn.
+        destruct (c1 =? 45).
+        * destruct r2 as [|c2 r3]; [discriminate|]. cbn [length] in Hn.
+          destruct (c2 =? 62); eapply IH; try exact E; cbn [length]; lia.
+        * eapply IH; try exact E; cbn [length]; lia.
+      + eapply IH; try exact E; lia.
+    - destruct (c =? 60) eqn:E60.
+      + assert (Hs : is_space c = false) by (zb; subst; reflexivity).
+        destruct r1 as [|c1 r2]; [discriminate|]. cbn [length] in Hn.
+        destruct (c1 =? 33); [|inversion E; subst; exact Hs].
+        destruct r2 as [|c2 r3]; [discriminate|]. cbn [length] in Hn.
+        destruct (c2 =? 45); [|inversion E; subst; exact Hs].
+        destruct r3 as [|c3 r4]; [discriminate|]. cbn [length] in Hn.
+        destruct (c3 =? 45); [|inversion E; subst; exact Hs].
+        eapply IH; try exact E; cbn [length]; lia.
+      + destruct (is_space c) eqn:Es.
+        * eapply IH; try exact E; lia.
+        * inversion E; subst. exact Es. }
+  intros n r o l s q. apply G.
+Qed.
+
+(* ---- scan --------------------------------------------------------------------------------- *)
+
+Lemma scan_ok : forall stop r, In 0 r ->
+  exists a c b, scan stop r = Some (a, c :: b) /\ r = a ++ c :: b /\
+                Forall (fun x => x <> 0 /\ stop x = false) a /\ (c = 0 \/ stop c = true) /\ In 0 (c :: b).
+Proof.
+  intros stop. induction r as [|x r IH]; intros H0; [exfalso; exact H0|].
+  cbn [scan]. destruct ((x =? 0) || stop x) eqn:E.
+  - exists [], x, r. repeat split; try reflexivity; [constructor| |exact H0].
+    apply orb_prop in E. destruct E as [E|E]; [left; zb; exact E|right; exact E].
+  - apply orb_false_elim in E. destruct E as [E1 E2]. zb.
+    destruct (IH (in0_tail _ _ H0 E1)) as (a & c & b & S & R & F & C & I).
+    rewrite S. exists (x :: a), c, b. repeat split; try assumption.
+    + cbn [app]. f_equal. exact R.
+    + constructor; [split; assumption|exact F].
+Qed.
+
+(* ---- readToken ---------------------------------------------------------------------------- *)
+
+Definition tok_good (text : list Z) (r0 : list Z) (x : res (token * pos)) : Prop :=
+  match x with
+  | Ok (tk, q) => Inv text (tpos tk) /\ Inv text q /\ suffix (rest q) r0 /\ (length (rest q) < length r0)%nat
+  | Syn l c _ => ErrAt text l c
+  | Oob => False
+  | Fuel => False
+  end.
+
+Lemma errat_of : forall text p, Inv text p -> ErrAt text (line p) (off p - ls p + 1).
+Proof. intros text p H. exists p. split; [exact H|split; reflexivity]. Qed.
+
+Lemma adv_inv_many : forall text q a b,
+  Inv text q -> rest q = a ++ b -> Forall plain a -> Inv text (adv q (zlen a) b).
+Proof.
+  intros text q a b H R F. unfold Inv, adv. cbn [rest off line ls].
+  apply inv_adv_many; [|exact F]. rewrite <- R. exact H.
+Qed.
+
+Lemma name_stop_plain : forall a, Forall (fun x => x <> 0 /\ name_stop x = false) a -> Forall plain a.
+Proof.
+  intros a F. eapply Forall_impl; [|exact F]. intros x [H0 Hs]. unfold plain. split; [exact H0|].
+  unfold name_stop in Hs. apply orb_false_elim in Hs. destruct Hs as [_ Hs].
+  split; intro; subst x; discriminate.
+Qed.
+
+Lemma readName_ok : forall text q, Inv text q ->
+  (match rest q with c :: _ => c <> 0 /\ name_stop c = false \/ c = 47 | [] => False end) ->
+  tok_good text (rest q) (readName q).
+Proof.
+  intros text q HI Hc. unfold readName.
+  destruct (scan_ok name_stop (rest q) (inv_in0 _ _ HI)) as (a & c & b & S & R & F & C & I0).
+  rewrite S. destruct a as [|x a].
+  - unfold synAt. cbn [tok_good]. apply errat_of. exact HI.
+  - cbn [tok_good tpos]. split; [exact HI|]. split.
+    + apply (adv_inv_many text q (x :: a) (c :: b)); [exact HI|exact R|apply name_stop_plain; exact F].
+    + cbn [adv rest]. rewrite R. split; [apply suffix_app|]. rewrite app_length. cbn [length]. lia.
+Qed.
+
+Lemma readToken_ok : forall text p, Inv text p -> tok_good text (rest p) (readToken p).
+Proof.
+  intros text p HI. unfold readToken.
+  destruct (skipSpace_ok text p HI) as (q & Eq & Iq & Sq). rewrite Eq. cbn [bind].
+  assert (Hmono : forall x, tok_good text (rest q) x -> tok_good text (rest p) x).
+  { intros [[tk q']| | |]; cbn [tok_good]; try tauto.
+    intros (A & B & C & D). split; [exact A|]. split; [exact B|]. split; [exact (suffix_trans _ _ _ C Sq)|].
+    apply suffix_len in Sq. lia. }
+  apply Hmono. clear Hmono.
+  pose proof (inv_in0 _ _ Iq) as H0.
+  destruct (rest q) as [|c r1] eqn:Rq; [exfalso; exact H0|].
+  (* single byte tokens *)
+  assert (Hone : forall ty, c <> 0 -> c <> 10 -> c <> 13 ->
+            tok_good text (c :: r1) (Ok (mkTok ty [] q, adv q 1 r1))).
+  { intros ty A B C. cbn [tok_good tpos]. split; [exact Iq|]. split.
+    - apply (adv_inv_many text q [c] r1); [exact Iq|exact Rq|]. repeat constructor; assumption.
+    - cbn [adv rest]. split; [exists [c]; reflexivity|cbn [length]; lia]. }
+  assert (Htwo : forall ty c1 r2, r1 = c1 :: r2 -> c <> 0 -> c <> 10 -> c <> 13 -> c1 <> 0 -> c1 <> 10 -> c1 <> 13 ->
+            tok_good text (c :: r1) (Ok (mkTok ty [] q, adv q 2 r2))).
+  { intros ty c1 r2 -> A B C A1 B1 C1. cbn [tok_good tpos]. split; [exact Iq|]. split.
+    - apply (adv_inv_many text q [c; c1] r2); [exact Iq|exact Rq|]. repeat constructor; assumption.
+    - cbn [adv rest]. split; [exists [c; c1]; reflexivity|cbn [length]; lia]. }
+  assert (Hname : (c <> 0 /\ name_stop c = false \/ c = 47) -> tok_good text (c :: r1) (readName q)).
+  { intros Hc. rewrite <- Rq. apply readName_ok; [exact Iq|]. rewrite Rq. exact Hc. }
+  destruct (c =? 60) eqn:E60.
+  { zb. subst c. assert (H0' : In 0 r1) by (apply (in0_tail _ _ H0); discriminate).
+    destruct r1 as [|c1 r2]; [exfalso; exact H0'|].
+    destruct (c1 =? 47) eqn:E47; zb.
+    - subst c1. apply (Htwo TEndBegin 47 r2); try reflexivity; discriminate.
+    - apply Hone; discriminate. }
+  destruct (c =? 62) eqn:E62; [zb; subst c; apply Hone; discriminate|].
+  destruct (c =? 0) eqn:E0.
+  { unfold synAt. cbn [tok_good]. apply errat_of. exact Iq. }
+  destruct (c =? 61) eqn:E61; [zb; subst c; apply Hone; discriminate|].
+  zb.
+  destruct ((c =? 34) || (c =? 39)) eqn:Eq'.
+  { assert (H0' : In 0 r1) by (apply (in0_tail _ _ H0); assumption).
+    destruct (scan_ok (fun x => (x =? c) || (x =? 13) || (x =? 10)) r1 H0') as (a & e & b & S & R & F & C & I0).
+    rewrite S.
+    destruct (e =? 0) eqn:Ee0; [unfold synAt; cbn [tok_good]; apply errat_of; exact Iq|].
+    destruct (negb (e =? c)) eqn:Eec; [unfold synAt; cbn [tok_good]; apply errat_of; exact Iq|].
+    apply negb_false_iff in Eec. zb. subst e.
+    cbn [tok_good tpos]. split; [exact Iq|]. split.
+    - replace (zlen a + 2) with (zlen ((c :: a) ++ [c])) by (rewrite zlen_app; unfold zlen; cbn [length]; lia).
+      apply (adv_inv_many text q ((c :: a) ++ [c]) b); [exact Iq| |].
+      + rewrite Rq, R. cbn [app]. rewrite <- app_assoc. reflexivity.
+      + assert (Pc : plain c).
+        { apply orb_prop in Eq'. unfold plain. destruct Eq' as [X|X]; zb; subst c; repeat split; discriminate. }
+        apply Forall_app. split; [|constructor; [exact Pc|constructor]].
+        constructor; [exact Pc|].
+        eapply Forall_impl; [|exact F]. intros x [X0 Xs]. unfold plain.
+        apply orb_false_elim in Xs. destruct Xs as [Xs X10]. apply orb_false_elim in Xs. destruct Xs as [_ X13].
+        zb. repeat split; assumption.
+    - cbn [adv rest]. rewrite R. split.
+      + exists (c :: a ++ [c]). cbn [app]. rewrite <- app_assoc. reflexivity.
+      + cbn [length]. rewrite app_length. cbn [length]. lia. }
+  apply orb_false_elim in Eq'. destruct Eq' as [E34 E39]. zb.
+  destruct (c =? 47) eqn:E47.
+  { zb. subst c. assert (H0' : In 0 r1) by (apply (in0_tail _ _ H0); discriminate).
+    destruct r1 as [|c1 r2]; [exfalso; exact H0'|].
+    destruct (c1 =? 62) eqn:E62'; zb.
+    - subst c1. apply (Htwo TEmptyEnd 62 r2); try reflexivity; discriminate.
+    - apply Hname. right. reflexivity. }
+  zb. apply Hname.
+  destruct (name_stop c) eqn:Ens; [|left; split; [assumption|reflexivity]].
+  (* c is a name stop byte other than '/', '>', '=': white space - but skipSpace stopped here *)
+  exfalso. unfold name_stop in Ens.
+  assert (Hsp : is_space c = true).
+  { destruct (c =? 47) eqn:X1; [zb; contradiction|]. destruct (c =? 62) eqn:X2; [zb; contradiction|].
+    destruct (c =? 61) eqn:X3; [zb; contradiction|]. exact Ens. }
+  unfold skipSpace in Eq. pose proof (skipSp_stop _ _ _ _ _ _ (le_n _) Eq) as St. rewrite Rq in St. congruence.
+Qed.
+
+(* ---- parseText ---------------------------------------------------------------------------- *)
+
+Definition text_good (text : list Z) (r0 : list Z) (x : res (list Z * pos)) : Prop :=
+  match x with
+  | Ok (t, q) => Inv text q /\ suffix (rest q) r0 /\
+                 (match r0 with c :: _ => c <> 60 -> (length (rest q) < length r0)%nat | [] => True end)
+  | Syn l c _ => ErrAt text l c
+  | Oob => False
+  | Fuel => False
+  end.
+
+Lemma cons_text_good : forall text r0 r0' c x,
+  text_good text r0 x -> suffix r0 r0' -> (length r0 < length r0')%nat -> text_good text r0' (cons_text c x).
+Proof.
+  intros text r0 r0' c [[t q]| | |] G S L; cbn [cons_text bind text_good fst snd] in *; try tauto.
+  destruct G as (A & B & _). split; [exact A|]. split; [exact (suffix_trans _ _ _ B S)|].
+  destruct r0'; [exact I|]. intros _. apply suffix_len in B. lia.
+Qed.
+
+Lemma scanText_ok : forall text n r o l s,
+  (length r <= n)%nat -> InvR text r o l s -> text_good text r (scanText r o l s).
+Proof.
+  intros text. induction n as [|n IH]; intros r o l s Hn HI.
+  { destruct r; [exfalso; exact (invr_in0 _ _ _ _ _ HI)|cbn [length] in Hn; lia]. }
+  pose proof (invr_in0 _ _ _ _ _ HI) as H0.
+  destruct r as [|c r1]; [exfalso; exact H0|]. cbn [length] in Hn. cbn [scanText].
+  destruct (c =? 0) eqn:E0.
+  { cbn [text_good]. exists (mkPos (c :: r1) o l s). split; [exact HI|split; reflexivity]. }
+  destruct (c =? 60) eqn:E60.
+  { cbn [text_good]. split; [exact HI|]. split; [apply suffix_refl|]. zb. intros X. contradiction. }
+  zb. assert (H0' : In 0 r1) by (apply (in0_tail _ _ H0); assumption).
+  destruct (c =? 13) eqn:E13.
+  { zb. subst c. destruct r1 as [|c1 r2]; [exfalso; exact H0'|]. cbn [length] in Hn.
+    destruct (c1 =? 10) eqn:E10; zb.
+    - subst c1. apply (cons_text_good text (10 :: r2)); [|exists [13]; reflexivity|cbn [length]; lia].
+      apply (cons_text_good text r2); [|exists [10]; reflexivity|cbn [length]; lia].
+      apply IH; [lia|]. apply (inv_adv_crlf _ _ _ l s). exact HI.
+    - apply (cons_text_good text (c1 :: r2)); [|exists [13]; reflexivity|cbn [length]; lia].
+      apply IH; [cbn [length]; lia|]. apply (inv_adv_cr _ _ _ _ l s); assumption. }
+  destruct (c =? 10) eqn:E10.
+  { zb. subst c. apply (cons_text_good text r1); [|exists [10]; reflexivity|cbn [length]; lia].
+    apply IH; [lia|]. apply (inv_adv_lf _ _ _ l s). exact HI. }
+  zb. apply (cons_text_good text r1); [|exists [c]; reflexivity|cbn [length]; lia].
+  apply IH; [lia|]. apply (inv_adv_plain _ c); assumption.
+Qed.
+
+(* parseText from a cursor where the look-ahead did not find "<" or "</": it makes progress *)
+Lemma parseText_ok : forall text p, Inv text p ->
+  (match readToken p with Ok (tk, _) => tty tk <> TStart /\ tty tk <> TEndBegin | _ => True end) ->
+  match parseText p with
+  | Ok (t, q) => Inv text q /\ suffix (rest q) (rest p) /\ (length (rest q) < length (rest p))%nat
+  | Syn l c _ => ErrAt text l c
+  | Oob => False
+  | Fuel => False
+  end.
+Proof.
+  intros text p HI Hla. unfold parseText.
+  pose proof (inv_in0 _ _ HI) as H0.
+  destruct (rest p) as [|c r1] eqn:Rp; [exfalso; exact H0|].
+  destruct (c =? 60) eqn:E60.
+  - zb. subst c.
+    destruct (skipSpace_ok text p HI) as (q & Eq & Iq & Sq). rewrite Eq. cbn [bind].
+    pose proof (scanText_ok text (length (rest q)) (rest q) (off q) (line q) (ls q) (le_n _) Iq) as G.
+    destruct (scanText (rest q) (off q) (line q) (ls q)) as [[t q']| | |]; cbn [text_good bind fst snd] in *; try tauto.
+    destruct G as (A & B & C). split; [exact A|]. rewrite Rp in Sq.
+    split; [exact (suffix_trans _ _ _ B Sq)|].
+    (* progress: either skipSpace moved, or the look-ahead would have seen "<" / "</" *)
+    destruct (Nat.eq_dec (length (rest q)) (length (60 :: r1))) as [Le|Lne].
+    + exfalso. pose proof (suffix_len_eq _ _ Sq Le) as Req.
+      unfold readToken in Hla. rewrite Eq in Hla. cbn [bind] in Hla. rewrite Req in Hla.
+      cbn [Z.eqb Pos.eqb] in Hla.
+      assert (H0' : In 0 r1) by (apply (in0_tail _ _ H0); discriminate).
+      destruct r1 as [|c1 r2]; [exact H0'|].
+      destruct (c1 =? 47); cbn [tty] in Hla; destruct Hla as [X Y]; congruence.
+    + apply suffix_len in Sq. apply suffix_len in B. lia.
+  - cbn [bind]. zb.
+    pose proof (scanText_ok text (length (rest p)) (rest p) (off p) (line p) (ls p) (le_n _) HI) as G.
+    destruct (scanText (rest p) (off p) (line p) (ls p)) as [[t q']| | |]; cbn [text_good bind fst snd] in *; try tauto.
+    rewrite Rp in G. destruct G as (A & B & C). split; [exact A|]. split; [exact B|]. apply C. exact E60.
+Qed.
